@@ -29,7 +29,7 @@ fn mk(name: &str, cfg: Cfg, pfx: &str, reopens: usize, depth: usize, min_depth: 
     prop.probe = Probe::Lite;
     prop.supersede_reopens = reopens;
     prop.journal_oracle = false;
-    Pass { name: name.to_string(), prop, depth, min_depth, budget: Duration::from_secs_f64(secs) }
+    Pass { name: name.to_string(), prop, depth, min_depth, budget: Duration::from_secs_f64(secs), dedup_extra: 0, dedup_budget: Duration::ZERO }
 }
 
 pub fn passes(tier: &str) -> Vec<Pass> {
